@@ -38,7 +38,11 @@ MANIFEST = {
             "on both hosts, server software present, a rule on the router). A host's next hop for a destination outside every enabled local subnet is ALWAYS its default gateway: "
             "a function of interfaces and gateway only, never of the ARP cache (the host-side resolution function is translated "
             "statement by statement). Application exchanges identified by a (port, protocol) key (receiver look-up, open-port test, "
-            "answer to the source) are in the model; the addressee, termination and fuel theorems range over them. Float metrics: on "
+            "answer to the source) are in the model; the addressee, termination and fuel theorems range over them. The ARP side is "
+            "TRANSLATED: HostARP / RouterARP _get_arp_cache_mac_address and _get_arp_cache_network_interface, ARP.add_arp_cache_entry, "
+            "ARP.send_arp_request and the request / reply handlers are turned statement by statement into Lean functions "
+            "(Gen/ForwardArp.lean) and one activation of the model's arpMac / arpIfc / addArp / sendArpReq is proved to BE the "
+            "translated method for every state, node, address, flag pair and fuel (C08_gen_arp_*). Float metrics: on "
             "A switch re-points a MAC to the port it was last seen on, whatever its table held (learning is unconditional and precedes "
             "the table read); R-net re-cables hosts at run time. On finite metrics the float loop is the integer loop; for every table the selected entry has no strictly cheaper rival of its "
             "prefix, and for every nan-free (= constructible: RouteEntry refuses NaN) table it is the minimum in -inf <= finite <= inf. Tie: constants, comparison "
